@@ -638,6 +638,9 @@ def run(tier):
     # a simplification is applied to the input it was computed for
     sub05 = Check('C05', 'other', tier, [], [])
     chk.guard(c05.rule_r4, sub05, prog)
+    # (the echo of the checked list belongs to C05/C01, not to C11)
+    Check.restrict(sub05, lambda wh, what: not what.startswith(
+        ('Result(', '(False,', '(True,')))
     chk.adopt('C11.R10', 'the worker applies a simplification to the input '
               'the task was generated from (cache keyed by the task\'s '
               'base), so the designated identities exist in it (shared '
